@@ -61,6 +61,11 @@ var c11Patches = []c11Patch{
 		Text: "@@\n@@\n import \"" + c11P + "\"\n\n-foo.Old()\n+foo.New()\n",
 		Ctx:  []impSpec{{"", c11P}},
 		Site: func(n string, r *rand.Rand) string { return n + ".Old()" }},
+	// an import that the change keeps, written as an identical '-'/'+' pair instead of on a context line
+	{Name: "keep-as-pair", Action: "match",
+		Text:  "@@\n@@\n-import \"" + c11P + "\"\n+import \"" + c11P + "\"\n\n-foo.Old()\n+foo.New()\n",
+		Minus: []impSpec{{"", c11P}}, Plus: []impSpec{{"", c11P}},
+		Site: func(n string, r *rand.Rand) string { return n + ".Old()" }},
 	{Name: "match-only-drop-use", Action: "match-then-unused",
 		Text: "@@\nvar x expression\n@@\n import \"" + c11P + "\"\n\n-foo.Do(x)\n+do(x)\n",
 		Ctx:  []impSpec{{"", c11P}},
@@ -350,6 +355,13 @@ func runC11(ctx *core.Ctx, idx int) *core.Result {
 		pathP, pn = "example.com/api/core/v1", "v1"
 		p = c11Variant(p, pathP, "example.com/api/apps/v0", "v1", "v0")
 	}
+	if (idx/len(c11Patches))%3 == 2 && idx%2 == 0 {
+		// import paths whose last element is not the name of the package ("gopkg.in/yaml.v2" is package yaml): the name
+		// of an unnamed import can only be guessed from the path, and the guess names nothing in the file
+		qn = "json"
+		pathP, pn = "gopkg.in/old/yaml.v2", "yaml"
+		p = c11Variant(p, pathP, "gopkg.in/new/json.v3", "yaml", "json")
+	}
 	var srcs, forms, usesCls []string
 	var bystanders []bool
 	var extraNames []map[string]string
@@ -580,6 +592,9 @@ func runC11(ctx *core.Ctx, idx int) *core.Result {
 				n := rs.Name
 				if n == "" {
 					n = baseName(rs.Path)
+					if s.Name == "$" && rs.Path == pathP {
+						n = pn // an unnamed import matched by a metavariable goes by the metavariable's own spelling
+					}
 				}
 				stillUsed := usesName(fout, n)
 				if plusSet[rs] {
@@ -602,6 +617,9 @@ func runC11(ctx *core.Ctx, idx int) *core.Result {
 				n := rs.Name
 				if n == "" {
 					n = baseName(rs.Path)
+					if s.Name == "$" && rs.Path == pathP {
+						n = pn
+					}
 				}
 				if usesName(fout, n) && !out[rs] {
 					fail("used-import-removed", fmt.Sprintf("matched import %s was removed although the output still refers to %s", rs, n))
